@@ -83,7 +83,6 @@ Section Encode.
   Variable o : opts.
   Variable b : bpe.
   Hypothesis Hnew : bpe_new o = inl b.
-  Hypothesis Hign : o_ignore o = false.
   Hypothesis Hinj : vocab_inj (spec_vocab o).
   Hypothesis Hlen : N.of_nat (length (o_merges o)) <= 4294967296.
 
@@ -93,7 +92,8 @@ Section Encode.
     exists mm b2t,
       build_merge_map v (o_merges o) 0 [] = Some mm /\
       all_some (map (fun c : N => v_get v [c]) byte_to_char_tbl) = Some b2t /\
-      b_merges b = mm /\ b_b2t b = b2t /\ b_ignore b = false /\
+      b_merges b = mm /\ b_b2t b = b2t /\ b_ignore b = o_ignore o /\
+      b_vocab b = (if o_ignore o then Some v else None) /\ b_vocab_all b = v /\ b_added b = o_added o /\
       match norm_eow (o_eow o) with
       | None => b_eow b = None
       | Some sfx => exists et, all_some (map (fun c : N => v_get v (c :: sfx)) byte_to_char_tbl) = Some et
@@ -105,18 +105,18 @@ Section Encode.
     destruct (all_some (map (fun c : N => v_get v [c]) byte_to_char_tbl)) as [b2t|]; [|discriminate].
     exists mm, b2t. destruct (norm_eow (o_eow o)) as [sfx|].
     - destruct (all_some (map (fun c : N => v_get v (c :: sfx)) byte_to_char_tbl)) as [et|]; [|discriminate].
-      inversion Hnew; subst b. cbn. rewrite Hign. repeat split; try reflexivity. exists et. split; reflexivity.
-    - inversion Hnew; subst b. cbn. rewrite Hign. repeat split; reflexivity.
+      inversion Hnew; subst b. cbn. repeat split; try reflexivity. exists et. split; reflexivity.
+    - inversion Hnew; subst b. cbn. repeat split; reflexivity.
   Qed.
 
-  Theorem encode_piece_eq_reference_str piece (e : bool) :
+  Theorem encode_piece_merges_eq_reference_str piece (e : bool) :
     Forall (fun x => x < 256) piece ->
     let word := init_word (if e then norm_eow (o_eow o) else None) piece in
-    exists ids, encode_piece b piece e = Ok ids /\
+    exists ids, encode_piece_merges b piece e = Ok ids /\
                 map (v_get v) (reference_str (o_merges o) word) = map Some ids.
   Proof.
     intros Hbytes word.
-    destruct new_facts as [mm [b2t [HB [H2t [Em [Eb [Ei Heow]]]]]]].
+    destruct new_facts as [mm [b2t [HB [H2t [Em [Eb [Ei [_ [_ [_ Heow]]]]]]]]]].
     destruct (build_merge_map_models _ _ _ Hlen HB) as [tbl [HT HM]].
     destruct (id_table_str_table _ _ _ HT) as [Htbl HP3].
     (* byte tokens *)
@@ -132,8 +132,8 @@ Section Encode.
       - constructor; [|exact IH2]. unfold in_vocab. rewrite (Hbyte x Hx). discriminate. }
     destruct Ht0 as [Ht0 HPw0].
     (* the initial token list is the image of the reference's initial word *)
-    assert (Ht1 : exists t1, encode_piece b piece e = bpe_merge mm t1 /\ t1 = map (vmap v) word /\ Forall (in_vocab v) word).
-    { unfold encode_piece. rewrite Ei, Em, Eb. subst word.
+    assert (Ht1 : exists t1, encode_piece_merges b piece e = bpe_merge mm t1 /\ t1 = map (vmap v) word /\ Forall (in_vocab v) word).
+    { unfold encode_piece_merges. rewrite Em, Eb. subst word.
       destruct e.
       - destruct (norm_eow (o_eow o)) as [sfx|].
         + destruct Heow as [et [Het Ee]]. rewrite Ee.
@@ -164,5 +164,17 @@ Section Encode.
     unfold reference_str. rewrite map_map.
     clear -HPres. induction HPres as [|s l Hs _ IH]; [reflexivity|].
     cbn [map]. rewrite IH, (vmap_get v s Hs). reflexivity.
+  Qed.
+
+  Theorem encode_piece_eq_reference_str :
+    o_ignore o = false ->
+    forall piece (e : bool), Forall (fun x => x < 256) piece ->
+    let word := init_word (if e then norm_eow (o_eow o) else None) piece in
+    exists ids, encode_piece b piece e = Ok ids /\
+                map (v_get v) (reference_str (o_merges o) word) = map Some ids.
+  Proof.
+    intros Hign piece e Hb. unfold encode_piece, whole_piece.
+    destruct new_facts as [mm [b2t [_ [_ [_ [_ [Ei _]]]]]]]. rewrite Ei, Hign.
+    apply encode_piece_merges_eq_reference_str. exact Hb.
   Qed.
 End Encode.
